@@ -11,6 +11,7 @@ from asyncio import (
     gather,
     get_running_loop,
     isfuture,
+    wait,
 )
 from typing import TYPE_CHECKING, Any, NamedTuple, cast
 
@@ -145,8 +146,17 @@ class StreamItemQueue:
                 self._head = await entries.get()
             entry = self._head
             if isfuture(entry):
+                if not entry.done():
+                    # do not await the future directly, since a cancellation
+                    # of the item must not be mistaken for our own cancellation
+                    await wait((entry,))
+                if entry.cancelled():
+                    # The pending items are cancelled when the stream fails;
+                    # the failure is delivered by one of the next entries.
+                    self._head = None
+                    continue
                 try:
-                    entry = await entry
+                    entry = entry.result()
                 except Exception:
                     self._head = None
                     await self._cleanup()
@@ -174,6 +184,8 @@ class StreamItemQueue:
                     self._head = next_entry  # deliver the current batch first
                     break
                 if isfuture(next_entry):
+                    if next_entry.cancelled():
+                        continue  # see above
                     try:
                         next_entry = next_entry.result()
                     except Exception:
